@@ -40,10 +40,26 @@ import (
 	"verif/sim"
 )
 
-const (
-	verifDir = "/verif"
-	repoDir  = "/repo"
+const verifDir = "/verif"
+
+// repoDir is /repo for every registered command. VERIF_REPO (development only:
+// running the checks against a scratch worktree that carries a seeded change)
+// redirects it; evidence and replays then go to VERIF_OUT instead of /verif.
+var (
+	repoDir = "/repo"
+	outDir  = verifDir
 )
+
+func init() {
+	if r := os.Getenv("VERIF_REPO"); r != "" {
+		repoDir = r
+		outDir = os.Getenv("VERIF_OUT")
+		if outDir == "" {
+			outDir = filepath.Join(os.TempDir(), "verif-out")
+		}
+		os.MkdirAll(outDir, 0o755)
+	}
+}
 
 var goEnv = []string{"GOFLAGS=-mod=mod", "GOPROXY=off", "GOSUMDB=off", "GOTOOLCHAIN=local", "CGO_ENABLED=1"}
 
@@ -281,7 +297,7 @@ func evictOld(cache, keep string) {
 	}
 	sort.Slice(es, func(i, j int) bool { return es[i].t.After(es[j].t) })
 	for i, x := range es {
-		if i >= 2 {
+		if i >= 8 {
 			os.RemoveAll(filepath.Join(cache, x.name))
 		}
 	}
@@ -482,6 +498,14 @@ func checkProperty(prop, tier string, seed uint64, runs, budget, workers int, re
 	tmp := mkScratch("verif-run-")
 
 	if replay != "" {
+		if b, err := os.ReadFile(replay); err == nil && bytes.Contains(b, []byte(`"clause": "hang"`)) {
+			if replayHangs(bi, in, replay, tmp, time.Duration(hangSeconds())*time.Second) {
+				fmt.Printf("VIOLATION property=%s replay=%s\n", prop, replay)
+				return 1
+			}
+			fmt.Println("replay: the case terminated within the liveness bound")
+			return 0
+		}
 		tries := 1
 		if in.Flavor == "race" {
 			tries = 3 // the race detector misses a race in a few percent of executions; the schedule itself replays exactly
@@ -576,73 +600,159 @@ func checkProperty(prop, tier string, seed uint64, runs, budget, workers int, re
 	var wg sync.WaitGroup
 	per := (runs + workers - 1) / workers
 	crashed := []string{}
+	var hung []uint64
+	hangLimit := time.Duration(hangSeconds()) * time.Second
+	deadline := time.Now().Add(time.Duration(budget) * time.Second)
+	// runWorker executes runs from, from+step, ... (count of them); it returns the
+	// index of a run that exceeded the liveness bound (the worker was killed), or -1.
+	runWorker := func(wi int, from uint64, count int, gen int) int64 {
+		wtmp := filepath.Join(tmp, fmt.Sprintf("w%d_%d", wi, gen))
+		os.MkdirAll(wtmp, 0o755)
+		left := time.Until(deadline)
+		if left < time.Second {
+			left = time.Second
+		}
+		cmd := exec.Command(bi.Worker, "run", "--prop", prop, "--seed", fmt.Sprint(seed), "--tier", tier,
+			"--from", fmt.Sprint(from), "--step", fmt.Sprint(workers), "--count", fmt.Sprint(count),
+			"--budget-ms", fmt.Sprint(left.Milliseconds()), "--tmp", wtmp)
+		cmd.Env = append(os.Environ(), workerEnv(wtmp, in.Flavor == "race")...)
+		var stderr bytes.Buffer
+		cmd.Stderr = &stderr
+		stdout, _ := cmd.StdoutPipe()
+		if err := cmd.Start(); err != nil {
+			mu.Lock()
+			crashed = append(crashed, fmt.Sprintf("worker %d: %v", wi, err))
+			mu.Unlock()
+			return -1
+		}
+		var begun int64 = -1
+		var lastLine = time.Now()
+		var wmu sync.Mutex
+		killed := int64(-1)
+		stop := make(chan struct{})
+		go func() { // watchdog: a run in progress that produces nothing for hangLimit is a hang
+			tk := time.NewTicker(500 * time.Millisecond)
+			defer tk.Stop()
+			for {
+				select {
+				case <-stop:
+					return
+				case <-tk.C:
+					wmu.Lock()
+					if begun >= 0 && time.Since(lastLine) > hangLimit {
+						killed = begun
+						wmu.Unlock()
+						cmd.Process.Kill()
+						return
+					}
+					wmu.Unlock()
+				}
+			}
+		}()
+		rd := bufio.NewReaderSize(stdout, 1<<20)
+		for {
+			ln, err := rd.ReadBytes('\n')
+			if len(ln) > 0 {
+				var l wline
+				if json.Unmarshal(ln, &l) == nil {
+					wmu.Lock()
+					lastLine = time.Now()
+					switch l.T {
+					case "begin":
+						begun = int64(l.Run)
+					case "run":
+						begun = -1
+					}
+					wmu.Unlock()
+					mu.Lock()
+					switch l.T {
+					case "run":
+						evaluations++
+						fps[l.FP] = true
+						if l.NT {
+							nontrivial[l.FP] = true
+						}
+						if len(l.Viol) > 0 {
+							for _, v := range l.Viol {
+								founds = append(founds, found{l.Run, l.Case, v})
+							}
+						} else if l.Case != nil && len(samples) < 3 {
+							samples = append(samples, l.Case)
+						}
+					case "stats":
+						agg.Add(l.Stats)
+					case "infra":
+						crashed = append(crashed, fmt.Sprintf("worker %d run %d: %s", wi, l.Run, l.Msg))
+					}
+					mu.Unlock()
+				}
+			}
+			if err != nil {
+				break
+			}
+		}
+		err := cmd.Wait()
+		close(stop)
+		wmu.Lock()
+		k := killed
+		b := begun
+		wmu.Unlock()
+		if k >= 0 {
+			return k
+		}
+		if err != nil {
+			mu.Lock()
+			crashed = append(crashed, fmt.Sprintf("worker %d exited: %v (run in progress: %d)\n%s", wi, err, b, tail(stderr.String(), 30)))
+			mu.Unlock()
+		}
+		return -1
+	}
 	for wi := 0; wi < workers; wi++ {
 		wg.Add(1)
 		go func(wi int) {
 			defer wg.Done()
-			wtmp := filepath.Join(tmp, fmt.Sprintf("w%d", wi))
-			os.MkdirAll(wtmp, 0o755)
-			cmd := exec.Command(bi.Worker, "run", "--prop", prop, "--seed", fmt.Sprint(seed), "--tier", tier,
-				"--from", fmt.Sprint(wi), "--step", fmt.Sprint(workers), "--count", fmt.Sprint(per),
-				"--budget-ms", fmt.Sprint(budget*1000), "--tmp", wtmp)
-			cmd.Env = append(os.Environ(), workerEnv(wtmp, in.Flavor == "race")...)
-			var stderr bytes.Buffer
-			cmd.Stderr = &stderr
-			stdout, _ := cmd.StdoutPipe()
-			if err := cmd.Start(); err != nil {
-				mu.Lock()
-				crashed = append(crashed, fmt.Sprintf("worker %d: %v", wi, err))
-				mu.Unlock()
-				return
-			}
-			rd := bufio.NewReaderSize(stdout, 1<<20)
-			var begun int64 = -1
-			for {
-				ln, err := rd.ReadBytes('\n')
-				if len(ln) > 0 {
-					var l wline
-					if json.Unmarshal(ln, &l) == nil {
-						mu.Lock()
-						switch l.T {
-						case "begin":
-							begun = int64(l.Run)
-						case "run":
-							begun = -1
-							evaluations++
-							fps[l.FP] = true
-							if l.NT {
-								nontrivial[l.FP] = true
-							}
-							if len(l.Viol) > 0 {
-								for _, v := range l.Viol {
-									founds = append(founds, found{l.Run, l.Case, v})
-								}
-							} else if l.Case != nil && len(samples) < 3 {
-								samples = append(samples, l.Case)
-							}
-						case "stats":
-							agg.Add(l.Stats)
-						case "infra":
-							crashed = append(crashed, fmt.Sprintf("worker %d run %d: %s", wi, l.Run, l.Msg))
-						}
-						mu.Unlock()
-					}
+			from, count := uint64(wi), per
+			for gen := 0; count > 0 && gen < 20; gen++ {
+				h := runWorker(wi, from, count, gen)
+				if h < 0 {
+					return
 				}
-				if err != nil {
-					break
-				}
-			}
-			err := cmd.Wait()
-			if err != nil {
 				mu.Lock()
-				crashed = append(crashed, fmt.Sprintf("worker %d exited: %v (run in progress: %d)\n%s", wi, err, begun, tail(stderr.String(), 30)))
+				hung = append(hung, uint64(h))
 				mu.Unlock()
+				done := int((uint64(h)-from)/uint64(workers)) + 1
+				from, count = uint64(h)+uint64(workers), count-done
+				if time.Now().After(deadline) {
+					return
+				}
 			}
 		}(wi)
 	}
 	wg.Wait()
 	if len(crashed) > 0 {
 		infra("worker trouble:\n%s", strings.Join(crashed, "\n"))
+	}
+	// a run that exceeded the liveness bound is executed again, alone, before anything is said about it
+	sort.Slice(hung, func(i, j int) bool { return hung[i] < hung[j] })
+	for hi, h := range hung {
+		if hi >= 3 {
+			break
+		}
+		gen := exec.Command(bi.Worker, "gen", "--prop", prop, "--seed", fmt.Sprint(seed), "--tier", tier, "--from", fmt.Sprint(h))
+		caseJSON, err := gen.Output()
+		if err != nil {
+			infra("cannot regenerate hung run %d: %v", h, err)
+		}
+		v := sim.Violation{Prop: prop, Clause: "hang", Sig: "liveness-bound-exceeded", Detail: fmt.Sprintf("run %d did not finish within %v", h, hangLimit)}
+		p := writeReplay(prop, seed, h, caseJSON, v)
+		if !replayHangs(bi, in, p, tmp, hangLimit) {
+			fmt.Fprintf(os.Stderr, "check: run %d exceeded the liveness bound once but finished when run alone (loaded machine): not reported\n", h)
+			continue
+		}
+		if !livenessProps[prop] {
+			infra("run %d of %s does not terminate (case %s); this property has no liveness clause, so this is reported as trouble of the harness or the tree, not as a violation", h, prop, p)
+		}
+		founds = append(founds, found{h, caseJSON, v})
 	}
 
 	// ---- classify, minimise, replay
@@ -719,8 +829,8 @@ func checkProperty(prop, tier string, seed uint64, runs, budget, workers int, re
 		"coverage": cov, "assumptions": in.Assumptions, "wall_s": wall, "violations": violations,
 	}
 	eb, _ := json.MarshalIndent(ev, "", " ")
-	os.MkdirAll(filepath.Join(verifDir, "evidence"), 0o755)
-	if err := os.WriteFile(filepath.Join(verifDir, "evidence", prop+".json"), eb, 0o644); err != nil {
+	os.MkdirAll(filepath.Join(outDir, "evidence"), 0o755)
+	if err := os.WriteFile(filepath.Join(outDir, "evidence", prop+".json"), eb, 0o644); err != nil {
 		infra("evidence: %v", err)
 	}
 	fmt.Printf("check %s tier=%s seed=%d: %d runs, %d distinct non-trivial, %d violations, %d known findings, %.1fs\n",
@@ -746,17 +856,50 @@ func writeReplay(prop string, seed, runIdx uint64, c json.RawMessage, v sim.Viol
 	}
 	m["expect"] = v
 	b, _ := json.MarshalIndent(m, "", " ")
-	dir := filepath.Join(verifDir, "replays")
+	dir := filepath.Join(outDir, "replays")
 	os.MkdirAll(dir, 0o755)
 	p := filepath.Join(dir, fmt.Sprintf("%s-%d-%d.json", prop, seed, runIdx))
 	os.WriteFile(p, b, 0o644)
 	return p
 }
 
+// livenessProps: properties whose statement includes termination.
+var livenessProps = map[string]bool{"C06": true}
+
+func hangSeconds() int {
+	if v, err := strconv.Atoi(os.Getenv("VERIF_HANG_SECONDS")); err == nil && v > 0 {
+		return v
+	}
+	return 20
+}
+
+// replayHangs executes a case alone and reports whether it exceeds the bound.
+func replayHangs(bi *buildInfo, in *info, file, tmp string, limit time.Duration) bool {
+	cmd := exec.Command(bi.Worker, "replay", "--file", file, "--tmp", filepath.Join(tmp, "hang"))
+	cmd.Env = append(os.Environ(), workerEnv(tmp, in.Flavor == "race")...)
+	if err := cmd.Start(); err != nil {
+		return false
+	}
+	done := make(chan error, 1)
+	go func() { done <- cmd.Wait() }()
+	select {
+	case <-done:
+		return false
+	case <-time.After(limit):
+		cmd.Process.Kill()
+		<-done
+		return true
+	}
+}
+
 // minimiseAndReplay shrinks the failing case in a worker process, replays the
 // result in a fresh process and returns the replay file.
 func minimiseAndReplay(bi *buildInfo, in *info, prop string, seed uint64, f found, tmp string) (string, bool) {
 	orig := writeReplay(prop, seed, f.Run, f.Case, f.V)
+	if f.V.Clause == "hang" {
+		// already confirmed by running alone; shrinking a non-terminating case would need a timeout per candidate
+		return orig, true
+	}
 	small := orig + ".min"
 	env := append(os.Environ(), workerEnv(filepath.Join(tmp, "shrink"), in.Flavor == "race")...)
 	os.MkdirAll(filepath.Join(tmp, "shrink"), 0o755)
